@@ -30,12 +30,13 @@ pub struct World {
     pub handlers: Set<int>,                 // signals wired to the stop flag
     pub log: Seq<Event>,                    // R1 events
     pub stop_seen: bool,                    // some poll of the stop flag returned true
+    pub poll_fresh: bool,                   // ghost: the stop flag has been polled since the last file was started (C18.poll)
 }
 
 pub open spec fn same_but_log(a: World, b: World) -> bool {
     a.fs == b.fs && a.orig == b.orig && a.protected == b.protected && a.files == b.files && a.intended == b.intended && a.alloc == b.alloc
     && a.check_mode == b.check_mode && a.counter == b.counter && a.issued == b.issued
-    && a.handlers == b.handlers && a.stop_seen == b.stop_seen
+    && a.handlers == b.handlers && a.stop_seen == b.stop_seen && a.poll_fresh == b.poll_fresh
 }
 
 // R1: a log statement's only effect is one line of output; kept as ghost data.
